@@ -24,8 +24,8 @@ from concurrent.futures import ThreadPoolExecutor
 from .common import fhex, ints
 
 PROP_FILE = "Properties/C05.v"
-GEN = ["GenC05"]
-RUN_FILES = ["Model/C05_run.v", "Model/C05_run_gen.v"]
+GEN = ["GenC05", "GenC05imp"]
+RUN_FILES = ["Model/C05_run.v", "Model/C05_run_gen.v", "Model/C05_imp_run.v"]
 
 R_EARTH = 6370997.0
 NAN, INF = float("nan"), float("inf")
@@ -659,6 +659,8 @@ def bl(l):
 
 HDR = ("From Coq Require Import ZArith List Bool.\nFrom PR Require Import Base.ListX Model.Blockwise Model.C05_run.\n"
        "Import ListNotations.\nOpen Scope Z_scope.\n")
+HDR_IMP = ("From Coq Require Import ZArith List Bool.\nFrom PR Require Import Base.ListX Model.C05_imp_run.\n"
+           "Import ListNotations.\nOpen Scope Z_scope.\n")
 HDR_GEN = ("From Coq Require Import ZArith List Bool Floats.\nFrom PR Require Import Base.ListX Model.C05_run_gen.\n"
            "Import ListNotations.\n")
 
@@ -926,7 +928,7 @@ def implied_mask(case, meta):
 # ------------------------------------------------------------------------------------------ correspondence
 class CoqCases:
     def __init__(self):
-        self.qnd, self.asm, self.gat, self.npy, self.dims, self.cache, self.dimsok = [], [], [], [], [], [], []
+        self.qnd, self.asm, self.gat, self.npy, self.dims, self.cache, self.dimsok, self.impdims = [], [], [], [], [], [], [], []
         self.valid = {"chk_vin_legacy": [], "chk_vout_legacy": [], "chk_vin_future": [], "chk_vin_numpy": [], "chk_vout_numpy": []}
 
     def add(self, ctx, case, meta, cs, which, w, o, msk):
@@ -982,6 +984,16 @@ class CoqCases:
         self.dimsok.append(("(%s, %s, %s)" % (zl([code[x] for x in e["dims"]]), zl([code[x] for x in meta["s_dims"]]),
                                               "false" if "error" in e["res"] else "true"),
                             "case %d %s dims %s" % (case["id"], which, e["dims"])))
+        # the same observation against the functions translated from /repo (Gen/GenC05imp.v)
+        names = sorted(set(e["dims"]) | set(meta["s_dims"]) | {"y", "x"})
+        code = {nm: i for i, nm in enumerate(names)}
+        shape = e.get("shape") or case["data"]["shape"]
+        if "error" in e["res"] and which == "future" and e["res"]["error"] != "ValueError":
+            return
+        self.impdims.append(("(%s, %s, %s, %s, %s, %s, (%d, %d), %s)" % (
+            "true" if which == "legacy" else "false", zl([code[x] for x in e["dims"]]), zl(shape), zl([code[x] for x in meta["s_dims"]]),
+            zl(meta["s_shape"]), "true" if case["src"]["kind"] == "swath" else "false", code["y"], code["x"],
+            "false" if "error" in e["res"] else "true"), "case %d %s dims %s (translated check)" % (case["id"], which, e["dims"])))
 
     def add_numpy_valid(self, case, o):
         ref = o["ref"]
@@ -1013,7 +1025,8 @@ class CoqCases:
         groups = [("qnd", "chk_qnd", self.qnd, "query_no_distance"), ("asm", "chk_assemble", self.asm, "blockwise_assembly"),
                   ("gat", "chk_gather", self.gat, "my_index_gather"), ("npy", "chk_numpy", self.npy, "numpy_pipeline"),
                   ("dims", "chk_dims", self.dims, "dims_bookkeeping"), ("cache", "chk_cache", self.cache, "cache_history"),
-                  ("dimsok", "chk_dims_ok", self.dimsok, "geo_dims_acceptance")]
+                  ("dimsok", "chk_dims_ok", self.dimsok, "geo_dims_acceptance"),
+                  ("impdims", "chk_imp_dims_ok", self.impdims, "translated_dims_check")]
         for k, (chk, items) in enumerate(sorted(self.valid.items())):
             groups.append(("val%d" % k, chk, items, "generated_validity_test"))
         texts = []
@@ -1031,7 +1044,7 @@ class CoqCases:
                         defs.append("Definition %s := %s." % (names[t], t))
                     return names[t]
                 body = ";\n".join(re.sub("\u00ab([^\u00bb]*)\u00bb", intern, x) for x, _ in part)
-                texts.append((name, (HDR_GEN if short.startswith("val") else HDR) + "\n".join(defs) + "\nDefinition cases := [\n%s].\nEval vm_compute in (bad %s cases).\n" % (body, chk), part, what))
+                texts.append((name, (HDR_GEN if short.startswith("val") else HDR_IMP if short == "impdims" else HDR) + "\n".join(defs) + "\nDefinition cases := [\n%s].\nEval vm_compute in (bad %s cases).\n" % (body, chk), part, what))
         res = ctx.coq_eval_many([(n, t) for n, t, _, _ in texts])
         for name, _, part, what in texts:
             out, ok = res[name]
